@@ -189,6 +189,13 @@ def props_check(cid):
 
 
 def build_ocaml():
+    # everything Extract.v requires must be compiled against the current Gen files first
+    src = open(os.path.join(COQ, "Extract", "Extract.v")).read()
+    mods = re.findall(r"\b((?:Model|Spec|Gen|Base)\.\w+)", strip_coq_comments(src))
+    targets = sorted({m.replace(".", "/") + ".vo" for m in mods})
+    ok, fails, _ = coq_make(targets)
+    if not ok:
+        raise RuntimeError("models no longer compile: " + "; ".join("%s:%s %s" % f for f in fails)[:600])
     rc, out, err, _ = run([os.path.join(OCAML, "build.sh")], timeout=900)
     if rc != 0:
         raise RuntimeError("ocaml build failed:\n" + out + err)
